@@ -77,8 +77,18 @@ def r_apply_step(ctx):
     for bs in body_starts:
         reach = cfg.reachable_from(bs, avoid=inc_ids + [head.id])
         # head reachable? look at predecessors of head inside reach
+        feasible = None
         for p, l in head.pred:
             if p in reach:
+                if feasible is None:
+                    # confirm with the path-sensitive exploration: a helper that reports "stop" through its return value
+                    # leaves the loop on exactly the paths that did not advance
+                    try:
+                        feasible = ex.run(start=bs, avoid=inc_ids, stop=[head.id]).reached(head.id)
+                    except AnalysisError:
+                        feasible = True
+                if not feasible:
+                    continue
                 found = True
                 pn = cfg.nodes[p]
                 via_handler = None
@@ -515,7 +525,29 @@ def r_commit_rule(ctx):
             ctx.unproven(inst, f.loc(st), 'value is not a local candidate variable')
             continue
         # all assignments of the candidate variable
-        defs = [d for d in U.walk_no_nested(f.node) if isinstance(d, ast.Assign) and any(isinstance(t, ast.Name) and t.id == v.id for t in d.targets)]
+        def _stepped(name):
+            # a local that is advanced in place (`idx += 1`, a loop variable) is a running index, not a holder of a result
+            for x in U.walk_no_nested(f.node):
+                if isinstance(x, ast.AugAssign) and isinstance(x.target, ast.Name) and x.target.id == name:
+                    return True
+                if isinstance(x, ast.For) and any(isinstance(t, ast.Name) and t.id == name for t in ast.walk(x.target)):
+                    return True
+            return False
+
+        def cand_defs(name, seen=()):
+            # a pure copy of another local (`result = found`, e.g. the value a helper hands back) is looked through
+            out = []
+            for d in U.walk_no_nested(f.node):
+                if isinstance(d, ast.Assign) and any(isinstance(t, ast.Name) and t.id == name for t in d.targets):
+                    if isinstance(d.value, ast.Name) and d.value.id not in seen and d.value.id != name and not P.self_attr(d.value, f.self_name) \
+                            and (P._is_local(f, d.value.id) or d.value.id in f.params) and not _stepped(d.value.id):
+                        sub = cand_defs(d.value.id, seen + (name,))
+                        if sub:
+                            out += sub
+                            continue
+                    out.append(d)
+            return out
+        defs = cand_defs(v.id)
         allok = True
         n_checked = 0
         for d in defs:
@@ -949,6 +981,40 @@ def r_truncate_on_conflict(ctx):
                               witness={'facts': U.facts_str(bad, 30)}, instance=inst)
             elif states:
                 ctx.ok(inst, h.loc(c), 'a stored-vs-received disequality holds on all %d path classes' % len(states))
+        # the cut starts at the FIRST conflicting position: a position found by an ascending scan is not overwritten by a
+        # later hit (entries between the first and the last conflict would be kept although they differ from the leader's)
+        names = set(x.id for a_ in c.args for x in ast.walk(a_) if isinstance(x, ast.Name))
+        for loop in [l for l in U.walk_no_nested(h.node) if isinstance(l, ast.For)]:
+            it = loop.iter
+            asc = isinstance(it, ast.Call) and isinstance(it.func, ast.Name) and it.func.id in ('range', 'xrange', 'enumerate') and \
+                not (it.func.id != 'enumerate' and len(it.args) == 3)
+            if not asc:
+                continue
+            for d in ast.walk(loop):
+                if isinstance(d, ast.Assign) and len(d.targets) == 1 and isinstance(d.targets[0], ast.Name) and d.targets[0].id in names \
+                        and any(isinstance(x, ast.Name) and x.id in set(y.id for y in ast.walk(loop.target) if isinstance(y, ast.Name)) for x in ast.walk(d.value)):
+                    dn = U.node_containing(ex.cfg, d)
+                    if dn is None or not res.reached(dn.id):
+                        continue
+                    inst2 = 'the cut position `%s` is the first conflict of the scan' % d.targets[0].id
+                    ctx.tick()
+                    succ = [s_ for s_, l_ in dn.succ if not (isinstance(l_, tuple) and l_[0] == 'exc')]
+                    again = any(dn.id in ex.cfg.reachable_from(s_, follow_exc=False) for s_ in succ)
+                    if again:
+                        try:
+                            again = False
+                            for fs_ in res.facts_at(dn.id)[:6]:
+                                r_ = ex.run(start=dn.id, init=frozenset(fs_), stop=[dn.id], follow_exc=False, track=lambda m, _d=dn.id: ('hit',) if m.id == _d else ())
+                                if any(dict(cnt_).get('hit', 0) >= 1 for fs2, cnt_ in r_.cstates.get(dn.id, ())):
+                                    again = True
+                        except AnalysisError:
+                            again = True
+                    if again:
+                        ctx.violation('%s:cut-at-last-conflict' % h.qualname, h.loc(d),
+                                      'the scan goes on after `%s` and overwrites the position with a later conflict: the suffix is cut from the last differing position, stored entries '
+                                      'between the first and the last conflict are kept although the leader has other entries there' % unparse(d), instance=inst2)
+                    else:
+                        ctx.ok(inst2, h.loc(d), 'the scan cannot assign the position twice')
     ctx.expect_min(1)
 
 
